@@ -39,7 +39,7 @@ template <int S> struct Runner {
     c.st.obs(fmt("%s/%s", what, order_name(S)), res);
     if (res > th) fail(what, p, fmt("got %.17g want %.17g res %.3g", got, want, res));
   }
-  void run_problem(const Prob &p) {
+  void run_problem(const Prob &p, bool sparse_last = false) {
     const int N = p.N, n = M * N;
     Sp sp = build<S, D>(p);
     const auto &C = sp.getTrajectory().getCoefficients();
@@ -48,6 +48,9 @@ template <int S> struct Runner {
     Mat gdC(n, D); Eigen::VectorXd gdT(N);
     for (int r = 0; r < n; ++r) for (int d = 0; d < D; ++d) gdC(r, d) = g.dyadic();
     for (int i = 0; i < N; ++i) gdT(i) = g.dyadic();
+    // whole-row / whole-vector shortcuts couple the coordinates: the last coordinate's upstream gradient is 'knot-sampled' (only the
+    // rows c0..c_{s-1} non-zero) in every second problem, while the other coordinates stay dense
+    if (sparse_last) for (int r = 0; r < n; ++r) if (r % M >= S) gdC(r, D - 1) = 0.0;
     Eigen::VectorXd gdT0 = Eigen::VectorXd::Zero(N);
     auto G = sp.propagateGrad(gdC, gdT0);  // duration upstream kept zero so that the sum over coordinates is well defined
     auto EG = sp.getEnergyGrad();
@@ -113,6 +116,9 @@ template <int S> struct Runner {
     // one coordinate only non-zero: cross-talk would show as non-zero output elsewhere
     Prob z = p; z.P.setZero(); z.bc = BoundaryConditions<D>(); for (int i = 0; i <= N; ++i) z.P(i, D - 1) = p.P(i, D - 1); z.bc.start_velocity(D - 1) = 1.25; z.bc.end_acceleration(D - 1) = -0.5; z.bc.end_jerk(D - 1) = 0.75;
     run_problem(z);
+    run_problem(p, true);
+    // mixed boundary data: coordinate 0 generic, the last coordinate at rest in velocity and acceleration at both ends but with non-zero jerk
+    if (D > 1) { Prob m = p; for (int side = 0; side < 2; ++side) { bc_ref(m.bc, side, 1)(D - 1) = 0.0; bc_ref(m.bc, side, 2)(D - 1) = 0.0; bc_ref(m.bc, side, 3)(D - 1) = side ? -0.75 : 1.5; } run_problem(m); run_problem(m, true); }
     { Spl<S, D> sz = build<S, D>(z); const auto &C = sz.getTrajectory().getCoefficients(); ++c.st.comparisons; for (int d = 0; d + 1 < D; ++d) if (C.col(d).cwiseAbs().maxCoeff() != 0.0) { fail("cross-talk", z, fmt("coordinate %d has non-zero coefficients although only coordinate %d has data", d, D - 1)); break; } }
   }
 };
